@@ -168,6 +168,10 @@ func runCrash(req crashReq) (crashInfo, int, error) {
 	b, _ := json.Marshal(req)
 	cmd := exec.Command(exe, "c06crash", string(b))
 	cmd.Env = append(os.Environ(), "GOMAXPROCS=2")
+	if os.Getenv("DBUS_SESSION_BUS_ADDRESS") == "" {
+		// the keyring library would otherwise autolaunch (and leak) a dbus-daemon per process
+		cmd.Env = append(cmd.Env, "DBUS_SESSION_BUS_ADDRESS=unix:path=/nonexistent")
+	}
 	var stderr strings.Builder
 	cmd.Stderr = &stderr
 	runErr := cmd.Run()
